@@ -10,7 +10,13 @@
 // deactivated, deleted and fabricated tokens (one character changed, the stored PHC hash of a live
 // token, empty), non-canonical headers (scheme case, missing/double/trailing space, Basic, bare
 // token, two headers, arbitrary strings), session cookies (live, expired, revoked, fabricated),
-// and cookie + header together.
+// and cookie + header together. Session length: 1 h (renewal is a no-op), 1..4 min (below
+// RenewSessionTime: every renewal extends the session) or 300..400 ms (expires inside the case).
+// In-flight requests (only when the handler renews sessions): the middleware's session path is
+// FindSession(cookie) followed by RenewSession(found object, now+5m); another request or the
+// expiry can fall between the two calls. The harness replays that interleaving sequentially:
+// FindSession, then a logout (ExpireSession) / a user status change / nothing / the wait for the
+// expiry, then the RenewSession call with the held object, then a canonical probe of the cookie.
 // "Authenticated" = the handler behind AuthenticationHandler is reached, finds an authorizer in
 // the request context and that authorizer's PermissionSet() succeeds (this is what every
 // downstream authorizer call does first; an inactive token is rejected there).
@@ -23,7 +29,11 @@
 //   - session expiry uses the wall clock: the model keeps an interval [lo,hi] for the expiry
 //     instant (creation / renewal happen somewhere inside a measured call); a probe whose measured
 //     interval is not at least 150 ms before lo or after hi is not asserted (and the harness does
-//     not send session probes it knows to be that close).
+//     not send session probes it knows to be that close);
+//   - an in-flight renewal changes the model exactly like a renewal by a probe when the session
+//     is live, and not at all when the session was revoked or has expired in between: the probes
+//     that follow demand that such a session stays dead. A held expired session is only renewed
+//     once the in-memory store's expiry timers have visibly run (a late timer is not a defect).
 package c44_credentials
 
 import (
@@ -102,6 +112,7 @@ type authFix struct {
 	kvs     *inmem.KVStore
 	ten     *tenant.Service
 	authSvc influxdb.AuthorizationService
+	mem     *inmem.SessionStore
 	sessSt  *session.Storage
 	sessSvc *session.Service
 	idGen   platform.IDGenerator
@@ -167,6 +178,10 @@ func TestPropRequestAuth(t *testing.T) {
 		length := time.Hour
 		if withWait {
 			length = time.Duration(rapid.SampledFrom([]int{300, 400}).Draw(t, "session_ms")) * time.Millisecond
+		} else if rapid.IntRange(0, 9999).Draw(t, "short_length")%10 < 3 {
+			// a configured session length below RenewSessionTime (5 min): every renewal extends the
+			// session (with the default hour a renewal is a no-op until the last five minutes)
+			length = time.Duration(rapid.SampledFrom([]int{1, 2, 4}).Draw(t, "session_min")) * time.Minute
 		}
 		hashed := rapid.Bool().Draw(t, "hashed")
 		variant := rapid.SampledFrom([]string{influxdb2.VariantIdentifierSHA256, influxdb2.VariantIdentifierSHA512}).Draw(t, "variant")
@@ -176,7 +191,8 @@ func TestPropRequestAuth(t *testing.T) {
 			t.Fatalf("migrations: %v", err)
 		}
 		f.ten = tenant.NewService(tenant.NewStore(f.kvs))
-		f.sessSt = session.NewStorage(inmem.NewSessionStore())
+		f.mem = inmem.NewSessionStore()
+		f.sessSt = session.NewStorage(f.mem)
 		if err := f.openAuth(hashed, variant); err != nil {
 			t.Fatalf("auth store: %v", err)
 		}
@@ -210,6 +226,24 @@ func TestPropRequestAuth(t *testing.T) {
 			rec.Fail(t, name, key, detail, c)
 		}
 		lostThenProbed, waited, probes := false, false, 0
+		inflightLost := false
+
+		// modelRenew: RenewSession(now+RenewSessionTime) was called for s somewhere inside [t0,t1]
+		// while the model says alive / expired / neither (inside the margin) about s at that time.
+		modelRenew := func(s *mSess, t0, t1 time.Time, alive, expired bool) {
+			nlo, nhi := t0.Add(influxdb.RenewSessionTime), t1.Add(influxdb.RenewSessionTime)
+			switch {
+			case expired:
+			case alive:
+				if nlo.After(s.hi) {
+					s.lo, s.hi = nlo, nhi
+				}
+			default:
+				if nhi.After(s.hi) {
+					s.hi = nhi
+				}
+			}
+		}
 
 		userOK := func(i int) bool { return users[i].exists && users[i].active }
 
@@ -347,24 +381,78 @@ func TestPropRequestAuth(t *testing.T) {
 						continue
 					}
 					alive, expired := touchSession(s)
-					nlo, nhi := t0.Add(influxdb.RenewSessionTime), t1.Add(influxdb.RenewSessionTime)
-					switch {
-					case expired:
-					case alive:
-						if nlo.After(s.hi) {
-							s.lo, s.hi = nlo, nhi
-						}
-					default:
-						if nhi.After(s.hi) {
-							s.hi = nhi
-						}
-					}
+					modelRenew(s, t0, t1, alive, expired)
 				}
 			}
 		}
 
 		newToken := func(i int) string {
 			return fmt.Sprintf("t%02d", i) + rapid.StringOfN(rapid.RuneFrom([]rune(tokenAlphabet)), 6, 30, -1).Draw(t, fmt.Sprintf("tok%d", i)) + "=="
+		}
+
+		// A request "in flight": the middleware's session path is FindSession(cookie), then
+		// RenewSession(that object, now+RenewSessionTime). Other requests (a logout, a user update)
+		// and the expiry of the session can fall between the two calls. The harness replays exactly
+		// that interleaving sequentially: it looks the session up (inflight-lookup), lets something
+		// else happen, and only then makes the in-flight request's RenewSession call with the object
+		// it holds (inflightRenew), followed by a canonical probe of the cookie. Only generated when
+		// the handler renews sessions at all (SessionRenewDisabled=false).
+		inflightRenew := func(s *mSess, h *influxdb.Session, between string) {
+			r0 := time.Now()
+			newExp := time.Now().Add(influxdb.RenewSessionTime)
+			err := f.sessSvc.RenewSession(ctx, h, newExp)
+			r1 := time.Now()
+			alive, expired := r1.Before(s.lo.Add(-expiryMargin)), r0.After(s.hi.Add(expiryMargin))
+			ext := "not-extending"
+			if newExp.After(h.ExpiresAt) {
+				ext = "extending"
+			}
+			state := "live"
+			switch {
+			case s.revoked:
+				state = "revoked"
+			case expired:
+				state = "expired"
+			case !alive:
+				state = "inside-margin"
+			}
+			if !s.revoked {
+				modelRenew(s, r0, r1, alive, expired)
+			}
+			res := "renewal accepted"
+			if err != nil {
+				res = "renewal refused: " + err.Error()
+			}
+			ops = append(ops, authOp{Op: "inflight-renew", Arg: fmt.Sprintf("session of user%d; between lookup and renewal: %s", s.user, between), Result: res})
+			rec.Class(fmt.Sprintf("auth:inflight:%s:session-%s:%s", between, state, ext))
+			if s.revoked || expired {
+				inflightLost = true
+			}
+			now := time.Now()
+			if !s.revoked && now.After(s.lo.Add(-avoidMargin)) && now.Before(s.hi.Add(avoidMargin)) {
+				rec.Class("auth:probe:session:not-sent-near-expiry")
+				return
+			}
+			probe(authOp{Op: "probe-session-after-inflight-renew"}, nil, s.key, true, nil, s)
+		}
+		// storeForgot: the in-memory store's expiry timers for this session have run (they are
+		// started for ExpiresAt; the harness only renews a held expired session once they have, so
+		// that a late timer on a loaded machine is not mistaken for a resurrection).
+		storeForgot := func(h *influxdb.Session) bool {
+			deadline := time.Now().Add(2 * time.Second)
+			for {
+				_, err := f.sessSvc.FindSession(ctx, h.Key)
+				byID, _ := f.mem.Get("sessionsv2/" + h.ID.String())
+				byKey, _ := f.mem.Get("sessionsindexv2/" + h.Key)
+				if err != nil && byID == "" && byKey == "" {
+					time.Sleep(20 * time.Millisecond)
+					return true
+				}
+				if time.Now().After(deadline) {
+					return false
+				}
+				time.Sleep(5 * time.Millisecond)
+			}
 		}
 
 		nOps := rapid.IntRange(8, 28).Draw(t, "nops")
@@ -383,12 +471,36 @@ func TestPropRequestAuth(t *testing.T) {
 					}
 				}
 				if !until.IsZero() {
+					// requests in flight across the expiry: session looked up before, renewed after
+					type heldSess struct {
+						s *mSess
+						h *influxdb.Session
+					}
+					var held []heldSess
+					if !renewDisabled && rapid.IntRange(0, 3).Draw(t, lbl+".inflight") != 0 {
+						for _, s := range sessions {
+							if s.revoked || s.hi.After(until) {
+								continue
+							}
+							if h, err := f.sessSvc.FindSession(ctx, s.key); err == nil {
+								held = append(held, heldSess{s, h})
+								ops = append(ops, authOp{Op: "inflight-lookup", Arg: fmt.Sprintf("session of user%d", s.user)})
+							}
+						}
+					}
 					d := time.Until(until.Add(avoidMargin))
 					if d > 0 {
 						time.Sleep(d)
 					}
 					waited = true
 					ops = append(ops, authOp{Op: "wait-for-expiry", Arg: d.String()})
+					for _, x := range held {
+						if !storeForgot(x.h) {
+							rec.Class("auth:inflight:expiry:store-timer-late-not-renewed")
+							continue
+						}
+						inflightRenew(x.s, x.h, "expiry")
+					}
 				}
 				continue
 			}
@@ -396,6 +508,9 @@ func TestPropRequestAuth(t *testing.T) {
 				"probe-token", "probe-token", "probe-token", "probe-token", "probe-session", "probe-session", "probe-session",
 				"probe-odd", "probe-odd", "probe-odd", "probe-odd", "set-token-status", "set-token-status", "delete-token",
 				"set-user-status", "set-user-status", "expire-session", "reopen-auth"}
+			if !renewDisabled {
+				kinds = append(kinds, "inflight-session", "inflight-session", "inflight-session", "inflight-session")
+			}
 			if i < 3 {
 				kinds = []string{"create-token", "create-token", "create-session"}
 			}
@@ -498,6 +613,48 @@ func TestPropRequestAuth(t *testing.T) {
 				}
 				s.revoked = true
 				ops = append(ops, authOp{Op: kind, Arg: fmt.Sprintf("session of user%d", s.user)})
+			case "inflight-session":
+				var live []*mSess
+				for _, s := range sessions {
+					if !s.revoked && time.Now().Before(s.lo.Add(-avoidMargin)) {
+						live = append(live, s)
+					}
+				}
+				if len(live) == 0 {
+					continue
+				}
+				s := rapid.SampledFrom(live).Draw(t, lbl+".sess")
+				between := rapid.SampledFrom([]string{"logout", "logout", "nothing", "user-status"}).Draw(t, lbl+".between")
+				h, err := f.sessSvc.FindSession(ctx, s.key)
+				ops = append(ops, authOp{Op: "inflight-lookup", Arg: fmt.Sprintf("session of user%d", s.user)})
+				if err != nil {
+					if userOK(s.user) && time.Now().Before(s.lo.Add(-expiryMargin)) {
+						fail("valid-session-rejected", fmt.Sprintf("FindSession (the middleware's lookup) of a session that is not revoked, expires at the earliest in %v and belongs to an active user: %v", time.Until(s.lo), err))
+					}
+					rec.Class("auth:inflight:lookup-failed")
+					continue
+				}
+				switch between {
+				case "logout":
+					if err := f.sessSvc.ExpireSession(ctx, s.key); err != nil {
+						fail("expire-session-failed", err.Error())
+					}
+					s.revoked = true
+					ops = append(ops, authOp{Op: "expire-session", Arg: fmt.Sprintf("session of user%d", s.user)})
+				case "user-status":
+					if u := users[s.user]; u.exists {
+						st := influxdb.Inactive
+						if !u.active {
+							st = influxdb.Active
+						}
+						if _, err := f.ten.UpdateUser(ctx, u.id, influxdb.UserUpdate{Status: &st}); err != nil {
+							fail("update-user-failed", err.Error())
+						}
+						u.active = st == influxdb.Active
+						ops = append(ops, authOp{Op: "set-user-status", Arg: fmt.Sprintf("user%d %s", s.user, st)})
+					}
+				}
+				inflightRenew(s, h, between)
 			case "reopen-auth":
 				hashed = rapid.Bool().Draw(t, lbl+".hashed")
 				variant = rapid.SampledFrom([]string{influxdb2.VariantIdentifierSHA256, influxdb2.VariantIdentifierSHA512}).Draw(t, lbl+".variant")
@@ -611,6 +768,17 @@ func TestPropRequestAuth(t *testing.T) {
 		rec.Class(fmt.Sprintf("auth:case:renew-disabled=%v", renewDisabled))
 		if waited {
 			rec.Class("auth:case:waited-for-session-expiry")
+		}
+		switch {
+		case length < time.Second:
+			rec.Class("auth:case:session-length=ms-expires-in-case")
+		case length < influxdb.RenewSessionTime:
+			rec.Class("auth:case:session-length=minutes-below-renew-time")
+		default:
+			rec.Class("auth:case:session-length=1h")
+		}
+		if inflightLost {
+			rec.Class("auth:case:inflight-renewal-of-lost-session")
 		}
 		if lostThenProbed {
 			rec.Class("auth:case:lost-credential-probed")
